@@ -96,6 +96,13 @@ def location(project, source, position, filename=None, debug=False):
         if node:
             result = ctx.declarations(node, [])
 
+    def has_position(n):
+        # builtins, compiled modules and the like are defined nowhere in a file
+        try:
+            return bool(n.declared_at and n.filename)
+        except AttributeError:
+            return False
+
     def unmarked(n):
         # positions come from the source with the cursor mark inserted: a
         # definition on the cursor line after the cursor is shifted by it
@@ -107,8 +114,10 @@ def location(project, source, position, filename=None, debug=False):
     locs = []
     for r in result:
         if isinstance(r, list):
-            locs.append([unmarked(n) for n in r])
-        else:
+            alts = [unmarked(n) for n in r if has_position(n)]
+            if alts:
+                locs.append(alts)
+        elif has_position(r):
             locs.append(unmarked(r))
 
     return locs
